@@ -23,6 +23,9 @@ def replaceAt(string: str, index: int, ch: str) -> str:
 
 def process_inlines(tokens: list[Token], state: StateCore) -> None:
     stack: list[dict[str, Any]] = []
+    # (single, level) of closing quotes that found no opener on the stack: nothing
+    # can match them until such an opener is pushed, so do not scan the stack again
+    noOpener: set[tuple[bool, int]] = set()
     inside_autolink = 0
 
     for i, token in enumerate(tokens):
@@ -143,7 +146,7 @@ def process_inlines(tokens: list[Token], state: StateCore) -> None:
                     )
                 continue
 
-            if canClose:
+            if canClose and (isSingle, thisLevel) not in noOpener:
                 # this could be a closing quote, rewind the stack to get a match
                 for j in range(len(stack))[::-1]:
                     item = stack[j]
@@ -182,8 +185,10 @@ def process_inlines(tokens: list[Token], state: StateCore) -> None:
                 if goto_outer:
                     goto_outer = False
                     continue
+                noOpener.add((isSingle, thisLevel))
 
             if canOpen:
+                noOpener.discard((isSingle, thisLevel))
                 stack.append(
                     {
                         "token": i,
